@@ -327,3 +327,46 @@ Proof.
   - cbn [snd]. split; [apply Hn0|exact Hl0].
   - rewrite Forall_forall in *. intros tn Hin. split; [apply (Hrest tn Hin)|apply (Hlrest tn Hin)].
 Qed.
+
+(* ---------------------------------------------------------------- an audio-only RTSP publisher *)
+Definition akind (ac : N) : U13.ukind := if ac =? S.c_aac then U13.UAac else U13.URaw.
+Definition apt_of (ac : N) : Z :=
+  if ac =? S.c_aac then pt_aac else if ac =? S.c_pcma then pt_g711a else if ac =? S.c_pcmu then pt_g711u else pt_opus.
+
+Theorem rtsp_audio_ingest fx flt rot ac aclock apt ssrc asc arrivals groups :
+  (ac = S.c_aac /\ asc <> None) \/ (ac = S.c_pcma \/ ac = S.c_pcmu \/ ac = S.c_opus) ->
+  (1000 <= aclock < 4294967296000)%Z -> apt < 128 -> ssrc < 4294967296 -> Forall arr_ok arrivals ->
+  rtsp_ingest fx flt rot ac aclock (Z.of_N apt) asc S.c_none 0 0 None None None
+              (map (fun a => (0, raw_of apt ssrc a)) arrivals) = Ok groups ->
+  exists r0 ms0 more st12 outs r',
+    init_with_av_config rs_new asc None None None = Ok (r0, ms0) /\ groups = ms0 :: more /\
+    C12.feed_all (pr_of (akind ac)) (Z.to_N aclock) 1024 C12.c_init arrivals = Ok (st12, outs) /\
+    feed_all_av fx r0 (map (to_av (apt_of ac)) outs) = Ok (r', concat more).
+Proof.
+  intros Hac Hclk Hapt Hss Hok E. unfold rtsp_ingest in E.
+  assert (Evid : video_unpackable S.c_none = false) by reflexivity. rewrite Evid, andb_false_r in E.
+  destruct (init_with_av_config rs_new asc None None None) as [[r0 ms0]| |] eqn:Ei; cbn [bind] in E; try discriminate.
+  assert (Eac : (ac =? S.c_aac) && negb (is_some asc) = false).
+  { destruct Hac as [[-> Hasc]|Hac]; [destruct asc; [reflexivity|congruence]|]. destruct Hac as [->|[->| ->]]; reflexivity. }
+  rewrite Eac in E.
+  set (cfg := S.sess_cfg_of true ac aclock (Z.of_N apt) S.c_none 0 0) in E.
+  set (u := U13.mk_unp (akind ac) (apt_of ac) aclock).
+  assert (Hcfg : S.sc_aunp cfg = Some u /\ S.sc_apt cfg = Z.of_N apt /\ S.sc_artp cfg = 0).
+  { subst cfg u.
+    assert (Hgen : forall k p, (1000 <= aclock < 4294967296000)%Z -> S.mk_unpacker true k p aclock = Some (U13.mk_unp k p aclock))
+      by (intros; apply mk_unpacker_video; assumption).
+    destruct Hac as [[-> _]|[->|[->| ->]]].
+    - split; [exact (Hgen U13.UAac 97%Z Hclk)|split; reflexivity].
+    - split; [exact (Hgen U13.URaw 8%Z Hclk)|split; reflexivity].
+    - split; [exact (Hgen U13.URaw 0%Z Hclk)|split; reflexivity].
+    - split; [exact (Hgen U13.URaw 101%Z Hclk)|split; reflexivity]. }
+  destruct Hcfg as (Hu & Ha & Hch).
+  destruct (rtsp_run fx rot cfg S.sess_init None r0 _) as [more| |] eqn:Er; cbn [bind] in E; try discriminate.
+  injection E as <-.
+  destruct (audio_run fx rot cfg u 0 apt ssrc) with (arrivals := arrivals) (s := S.sess_init) (c12 := C12.c_init) (r := r0) (groups := more)
+    as (st12 & outs & r' & Ef & Em); try assumption.
+  - subst u. cbn [U13.uk_clock]. unfold clock_pos. lia.
+  - left. symmetry. exact Hch.
+  - apply crel_init.
+  - exists r0, ms0, more, st12, outs, r'. repeat split; assumption.
+Qed.
